@@ -625,6 +625,9 @@ pub fn c05(a: &Args) {
         for (qi, l) in lists.iter().enumerate() {
             out.eval(if nontrivial(file, tt) { Some(format!("{}|{:?}", file.text(), l)) } else { None });
             let want = oracle_core(tt, l);
+            // now and then the marking of some other request is inspected first (what the CLI logging and the mermaid export
+            // do): a read-only look must leave nothing behind
+            if qi % 5 == 2 { let other: Vec<i32> = vec![*r2.pick(&lits)]; let _ = guarded(|| d.get_marked_nodes_clone(&other)); out.count("marking_inspected_before_core", 1); }
             let got = guarded(|| { let mut v = d.core_dead_with_assumptions(l); v.sort(); v.dedup(); v });
             match got {
                 Ok(got) => {
